@@ -126,6 +126,38 @@ def view(func: ast.AST, iterable: ast.AST, target: ast.AST, body: Optional[List[
         out.index, out.elem = target.elts[0].id, target.elts[1].id  # type: ignore[attr-defined]
         out.offset = first - out.lower
         return out
+    if isinstance(it, ast.Call) and call_name(it) == "zip" and len(it.args) == 2 and not it.keywords \
+            and isinstance(target, ast.Tuple) and len(target.elts) == 2 and all(isinstance(e, ast.Name) for e in target.elts):
+        # zip(range(a, len(X) + k), X[c:]) in either order: numbers a, a+1, ... next to the elements from position c on
+        pairs = list(zip(it.args, target.elts))
+        counted = [(a, t) for a, t in pairs if isinstance(resolve_alias(func, a), ast.Call) and call_name(resolve_alias(func, a)) == "range"]
+        walked = [(a, t) for a, t in pairs if (a, t) not in counted]
+        if len(counted) != 1 or len(walked) != 1 or not _sliced(func, walked[0][0], out):
+            return None
+        rng = resolve_alias(func, counted[0][0])
+        if rng.keywords or len(rng.args) != 2:
+            return None
+        try:
+            first = affine(rng.args[0])
+        except OutsideFragment:
+            return None
+        out.index, out.elem = counted[0][1].id, walked[0][1].id  # type: ignore[attr-defined]
+        out.offset = first - out.lower
+        # the count has to last to the end of the list: stop == len(X) + (first - lower)
+        stop = rng.args[1]
+        extra = Affine()
+        if isinstance(stop, ast.BinOp) and isinstance(stop.op, (ast.Add, ast.Sub)):
+            try:
+                extra = affine(stop.right) if isinstance(stop.op, ast.Add) else Affine() - affine(stop.right)
+            except OutsideFragment:
+                return None
+            stop = stop.left
+        if not (isinstance(stop, ast.Call) and call_name(stop) == "len" and len(stop.args) == 1
+                and txt(resolve_alias(func, stop.args[0])) == out.seq):
+            return None
+        if not extra == out.offset:
+            out.to_end = False
+        return out
     if isinstance(target, ast.Name) and _sliced(func, it, out):
         out.elem = target.id
         return out
